@@ -3,6 +3,11 @@ pub mod c02;
 pub mod c03;
 pub mod c04;
 pub mod c05;
+pub mod c06;
+pub mod c07;
+pub mod c09;
+pub mod c10;
+pub mod c11;
 pub mod common;
 
 use crate::runner::{Ctx, Tier, Verdict};
@@ -16,7 +21,7 @@ pub struct PropDef {
 }
 
 pub fn all() -> Vec<PropDef> {
-    vec![c01::def(), c02::def(), c03::def(), c04::def(), c05::def()]
+    vec![c01::def(), c02::def(), c03::def(), c04::def(), c05::def(), c06::def(), c07::def(), c09::def(), c10::def(), c11::def()]
 }
 
 pub fn find(id: &str) -> Option<PropDef> {
